@@ -180,3 +180,83 @@ func smallScopeDocs(budget int) []string {
 	sort.Strings(out)
 	return out
 }
+
+// ---- small-scope exhaustive VALUES (C08) ----
+//
+// Every literal up to a small size at every kind of input position: one field
+// per argument type (nullable / non-null / defaulted scalars of every built-in
+// kind, lists of three shapes, an enum, an input object with required,
+// defaulted, list and recursive fields, a oneOf input object, a custom
+// scalar), crossed with every way of declaring the one variable the literal
+// may use.  Nothing is random: Rules.tla decides every document.
+
+const valueSDL = `
+enum E { RED GREEN }
+scalar Any
+input In { a: Int b: [Int!] r: Int! d: Int! = 1 n: In }
+input One @oneOf { a: Int s: String }
+type Query {
+  i(x: Int): Int  inn(x: Int!): Int  idf(x: Int! = 5): Int
+  li(x: [Int]): Int  lnn(x: [Int!]!): Int  ll(x: [[Int]]): Int  ldf(x: [Int!] = [1]): Int
+  e(x: E): Int  s(x: String): Int  b(x: Boolean): Int  fl(x: Float): Int  id(x: ID): Int
+  o(x: In): Int  onn(x: In!): Int  one(x: One): Int  any(x: Any): Int
+}
+`
+
+func smallValueDocs(full bool) []string {
+	atoms := []string{"1", "1.5", `"s"`, "true", "null", "RED", "BLUE", "$v"}
+	items := []string{"1", `"s"`, "null", "$v", "[1]"}
+	objAtoms := []string{"1", "null", `"s"`, "$v"}
+	var lits []string
+	lits = append(lits, atoms...)
+	lits = append(lits, "[]")
+	for _, a := range items {
+		lits = append(lits, "["+a+"]")
+		for _, b := range items {
+			lits = append(lits, "["+a+", "+b+"]")
+		}
+	}
+	lits = append(lits, "{}")
+	for _, a := range objAtoms {
+		lits = append(lits, "{a: "+a+"}", "{r: "+a+"}", "{zz: "+a+"}", "{s: "+a+"}", "{b: ["+a+"], r: 1}", "{r: 1, d: "+a+"}", "{n: {r: "+a+"}, r: 1}", "{a: "+a+", a: 2}")
+		for _, b := range objAtoms {
+			lits = append(lits, "{a: "+a+", r: "+b+"}", "{a: "+a+", s: "+b+"}")
+		}
+	}
+	fields := []string{"i", "inn", "idf", "li", "lnn", "ll", "ldf", "e", "s", "b", "fl", "id", "o", "onn", "one", "any"}
+	heads := []string{"query($v: Int) ", "query($v: Int!) ", "query($v: Int = 1) ", "query($v: Int = null) ", "query($v: [Int]) ", "query($v: [Int!]!) ", "query($v: String) ", "query($v: String!) ",
+		"query($v: In) ", "query($v: E = RED) ", "query($v: Any) ", "query($v: One) ", ""}
+	var out []string
+	k := 0
+	for _, f := range fields {
+		// the argument left out altogether
+		out = append(out, "{ "+f+" }")
+		for _, l := range lits {
+			if !strings.Contains(l, "$v") {
+				out = append(out, "{ "+f+"(x: "+l+") }")
+				continue
+			}
+			for _, h := range heads {
+				k++
+				if !full && k%3 != 0 {
+					continue // the quick tier takes every third declaration (fixed stride, no seed)
+				}
+				out = append(out, h+"{ "+f+"(x: "+l+") }")
+			}
+		}
+	}
+	// variable defaults checked against the variable's own type
+	for _, t := range []string{"Int", "Int!", "[Int]", "[Int!]", "E", "In", "One", "Any", "String", "Boolean", "Float", "ID"} {
+		for _, l := range lits {
+			if strings.Contains(l, "$v") {
+				continue
+			}
+			k++
+			if !full && k%3 != 0 {
+				continue
+			}
+			out = append(out, "query($v: "+t+" = "+l+") { any(x: $v) }")
+		}
+	}
+	return out
+}
